@@ -31,6 +31,18 @@ and after a step that changed no name and no shape (eval and training mode); `cl
 AND training mode under the same RNG state, and every tensor the clone holds (parameters, all buffers including
 non-persistent ones, plain tensor attributes) equals the original's bit for bit; a method changes the architecture
 hyperparameters of its own module only.
+
+Source translation (`pre_gate`, before the Lean gate): `py2lean_preserve.py` translates the source text of
+`EvolvableModule.preserve_parameters`, `EvolvableCNN.shrink_preserve_parameters` (dicts of named parameters and
+buffers, the loop, the per-tensor branch, the slice tuples, the copies) and of the methods that wire them
+(`EvolvableModule.clone`, `EvolvableCNN.recreate_network`, `EvolvableMultiInput.recreate_network`,
+`EvolvableNetwork.recreate_encoder`, `Mutations.reinit_from_mutated`) of the tree under test into
+`lean/Gen/PreserveGen.lean`; `Proofs/PreserveGenEq.lean` proves the generated definitions equal to the model
+(`preserveKey` / `preserveNet` / `recreate` with `NormPolicy.slice`, `BufPolicy.carry`, `clone`) and
+`Props/C04.lean` restates the common-box / whole-copy / missing-key / no-op / clone theorems over them
+(`C04_source_translation_*`).  If the translator rejects the source or those proofs stop checking, that is a
+gate problem naming the broken declaration; the suites below then supply the failing input if there is one
+(the `pure` suite runs the two carry functions on tagged parameters AND buffers).
 """
 from __future__ import annotations
 
@@ -42,6 +54,8 @@ import random
 import numpy as np
 import torch
 
+import common
+import py2lean_preserve
 from common import ROOT, Check, InfraError, ddmin
 
 FID_NORM = "C04-norm-params-reset-on-resize"
@@ -148,12 +162,32 @@ def suite_index(chk: Check, n: int) -> None:
 class _Holder(torch.nn.Module):
     def __init__(self, entries, sign):
         super().__init__()
-        for key, shape in entries:
+        for key, shape, *buf in entries:
             n = numel(shape)
             # old elements are tagged k (>= 0), new elements -(k+1): exact in float64
             base = torch.arange(n, dtype=torch.float64)
             t = (base if sign > 0 else -(base + 1)).reshape(shape)
-            self.register_parameter(key, torch.nn.Parameter(t))
+            if buf and buf[0]:
+                self.register_buffer(key, t)          # e.g. BatchNorm running statistics
+            else:
+                self.register_parameter(key, torch.nn.Parameter(t))
+
+
+def _kinds(entry) -> tuple:
+    """(old is a buffer, new is a buffer) of a pure-suite entry [name, old shape, new shape, kinds?]"""
+    k = entry[3] if len(entry) > 3 else "pp"
+    return k[0] == "b", k[1] == "b"
+
+
+# directed cases of the pure suite: buffers are carried over like parameters (the source adds named_buffers()
+# to both dicts), also next to parameters, in both carry functions, and across the parameter / buffer divide
+DIRECTED_PURE = [
+    {"suite": "pure", "mode": "full", "entries": [["bn_running_mean", [2], [3], "bb"], ["w", [2, 3], [3, 4], "pp"]]},
+    {"suite": "pure", "mode": "full", "entries": [["bn_running_var", [4], [4], "bb"], ["bn_num_batches_tracked", [], [], "bb"]]},
+    {"suite": "pure", "mode": "shrink", "entries": [["bn_running_mean", [5], [3], "bb"], ["conv_weight", [5, 2, 3, 3], [3, 2, 3, 3], "pp"]]},
+    {"suite": "pure", "mode": "full", "entries": [["stat", [3], [2], "pb"], ["gain", [2], [3], "bp"]]},
+    {"suite": "pure", "mode": "full", "entries": [["only_new_buf", None, [2], "bb"], ["only_old_buf", [2], None, "bb"], ["w", [1, 2], [2, 2], "pp"]]},
+]
 
 
 def gen_pair(rng: random.Random):
@@ -180,17 +214,19 @@ def run_pure_case(chk: Check, case: dict):
     from agilerl.modules.base import EvolvableModule
     from agilerl.modules.cnn import EvolvableCNN
     fn = EvolvableModule.preserve_parameters if case["mode"] == "full" else EvolvableCNN.shrink_preserve_parameters
-    old_entries = [(k, o) for k, o, n in case["entries"] if o is not None]
-    new_entries = [(k, n) for k, o, n in case["entries"] if n is not None]
+    old_entries = [(e[0], e[1], _kinds(e)[0]) for e in case["entries"] if e[1] is not None]
+    new_entries = [(e[0], e[2], _kinds(e)[1]) for e in case["entries"] if e[2] is not None]
     impl, problems, diffs, tags = {}, [], [], []
     # the loop of preserve_parameters stops at the first key that raises: run key by key so that every
     # key is observed (the model is per key as well)
-    for key, nshape in new_entries:
+    for key, nshape, nbuf in new_entries:
         old = _Holder(old_entries, +1)
-        new = _Holder([(key, nshape)], -1)
+        new = _Holder([(key, nshape, nbuf)], -1)
+        if nbuf:
+            tags.append("pure-buffer")
         try:
             res = fn(old, new)
-            t = dict(res.named_parameters())[key].detach().reshape(-1)
+            t = {**dict(res.named_parameters()), **dict(res.named_buffers())}[key].detach().reshape(-1)
             v = t.to(torch.float64).numpy()
             src = np.where(v >= 0, v, -1).astype(np.int64)
             own = np.arange(len(v), dtype=np.int64)
@@ -200,6 +236,8 @@ def run_pure_case(chk: Check, case: dict):
         except (RuntimeError, IndexError) as e:
             impl[key] = None
             tags.append("pure-raises")
+    old_entries = [(k, s_) for k, s_, _ in old_entries]
+    new_entries = [(k, s_) for k, s_, _ in new_entries]
     lines = ["preserve clear"] + [f"preserve old {k} {shape_words(s)}" for k, s in old_entries]
     q = []
     for pol in ("slice", "reset"):
@@ -217,6 +255,10 @@ def run_pure_case(chk: Check, case: dict):
         def same(x, y):
             return (x is None and y is None) or (x is not None and y is not None and np.array_equal(x, y))
         oshape = odict.get(key)
+        if oshape is not None and len(oshape) == len(nshape) and a is None and \
+                (case["mode"] == "full" or (len(nshape) >= 1 and list(oshape[2:]) == list(nshape[2:]))):
+            # oracle: a tensor that exists before and after (same rank, unsliced axes unchanged) must be carried over
+            problems.append(f"{key}: old {oshape} -> new {nshape}: the carry function raises instead of copying the common index range")
         if oshape is not None and len(oshape) == len(nshape) and a is not None:
             # oracle: the statement itself on the tags
             sl = tuple(slice(0, min(o, n)) for o, n in zip(oshape, nshape))
@@ -248,7 +290,8 @@ def run_pure_case(chk: Check, case: dict):
 
 def suite_pure(chk: Check, n: int) -> set:
     rng = chk.rng
-    cases = []
+    krng = random.Random(chk.seed * 7919 + 13)       # parameter / buffer kinds: a stream of their own
+    cases = [copy.deepcopy(c) for c in DIRECTED_PURE]
     for f in sorted((ROOT / "corpus" / "C04").glob("pure_*.json")):
         cases.append(json.loads(f.read_text()))
     for _ in range(n):
@@ -257,7 +300,8 @@ def suite_pure(chk: Check, n: int) -> set:
             old, new = gen_pair(rng)
             name = rng.choice(["w", "lin_weight", "layer_norm_w", "norm", "bn1_w", "batchnorm_b"]) + str(j)
             r = rng.random()
-            entries.append([name, None if r < 0.08 else old, None if 0.08 <= r < 0.16 else new])
+            kind = krng.choice(["pp"] * 14 + ["bb"] * 4 + ["pb", "bp"])
+            entries.append([name, None if r < 0.08 else old, None if 0.08 <= r < 0.16 else new, kind])
         cases.append({"suite": "pure", "mode": rng.choice(["full", "full", "shrink"]), "entries": entries})
     nd, all_hits = 0, set()
     for case in cases:
@@ -561,7 +605,13 @@ def check_clone(chk: Check, spec, m, x, seed: int, label: str, light: bool = Fal
                                 + ("" if k in sd0 else " (not in state_dict())"))
                 break
     for train in (False, True):
-        y0, y1 = forward(spec, m, x, seed, train), forward(spec, c, x, seed, train)
+        try:
+            y0, y1 = forward(spec, m, x, seed, train), forward(spec, c, x, seed, train)
+        except InfraError:
+            raise
+        except Exception as e:          # the module (or its clone) cannot compute any more
+            problems.append(f"{label}: forward pass of the module / its clone raised {type(e).__name__}: {str(e)[:160]}")
+            break
         if outputs_differ(y0, y1):
             problems.append(f"{label}: clone()(x) != module(x) in {'training' if train else 'eval'} mode")
     if light:
@@ -772,9 +822,26 @@ def nested_mods(m) -> dict:
 
 
 def run_chain(chk: Check, case: dict):
-    """re-run a mutation case from scratch.  -> dict(problems, diffs, hits, tags, applied)"""
-    spec, seed = case["spec"], case["seed"]
+    """re-run a mutation case from scratch.  -> dict(problems, diffs, hits, tags, applied).
+    An exception of the implementation outside the guarded steps (e.g. the forward pass of a module that a
+    mutation left inconsistent) is a property problem of the case, not a crash of the harness."""
     res = {"problems": [], "diffs": [], "hits": set(), "tags": [], "applied": []}
+    try:
+        return _run_chain(chk, case, res)
+    except InfraError:
+        raise
+    except Exception as e:
+        import traceback
+        where = [f for f in traceback.extract_tb(e.__traceback__) if "/agilerl/" in f.filename]
+        at = f" at {where[-1].filename.split('/agilerl/')[-1]}:{where[-1].lineno}" if where else ""
+        res["problems"].append(f"after {len(res['applied'])} applied step(s) the implementation raised "
+                               f"{type(e).__name__}{at}: {str(e)[:160]}")
+        res["tags"].append("chain-raised")
+        return res
+
+
+def _run_chain(chk: Check, case: dict, res: dict):
+    spec, seed = case["spec"], case["seed"]
     random.seed(seed)
     np.random.seed(seed % (2 ** 32))
     torch.manual_seed(seed)
@@ -1512,6 +1579,15 @@ PROBES = {"norm": probe_norm, "buffers": probe_buffers, "distclone": probe_distc
 
 
 # ----------------------------------------------------------------------------- run / selftest / replay
+def pre_gate(chk: Check) -> None:
+    """Regenerate lean/Gen/PreserveGen.lean from the source text of the tree under test (before the Lean gate)
+    and re-check `generated = model` (Proofs/PreserveGenEq.lean) and the theorems over the generated definitions
+    (Props/C04.lean).  A failure is a gate problem; the suites then look for the failing input."""
+    common.translation_gate(chk, py2lean_preserve, "Gen/PreserveGen.lean",
+                            ["Gen.PreserveGen", "Proofs.PreserveGenEq", "Props.C04"],
+                            "preserve_parameters / shrink_preserve_parameters / clone / recreate_* / reinit_from_mutated")
+
+
 def run(chk: Check) -> None:
     quick = chk.tier == "quick"
     chk.rule = ("index: random shapes rank 0-4; pure: real preserve_parameters/shrink_preserve_parameters on tagged "
@@ -1552,7 +1628,13 @@ def run(chk: Check) -> None:
     ]
     _REPORTED.clear()
     for name, probe in PROBES.items():
-        found = probe(chk)
+        try:
+            found = probe(chk)
+        except InfraError:
+            raise
+        except Exception as e:          # the implementation raises on the probe's input: the suites report it with a replay
+            chk.notes.append(f"probe {name} could not run: {type(e).__name__}: {str(e)[:200]}")
+            found = None
         if found:
             emit_finding(chk, found[0], found[1], {"suite": "probe", "probe": name})
     suite_index(chk, 40 if quick else 400)
